@@ -286,24 +286,30 @@ impl futures_core::Stream for ScriptStream {
     }
 }
 
+/// "pending" / "err" (the inner sink fails: Ready(Err)) / anything else: Ready(Ok)
+fn sink_res(t: &[String]) -> Poll<Result<(), ()>> {
+    match res_of(t) {
+        "pending" => Poll::Pending,
+        "err" => Poll::Ready(Err(())),
+        _ => Poll::Ready(Ok(())),
+    }
+}
+
 pub struct ScriptSink;
 impl futures_sink::Sink<()> for ScriptSink {
     type Error = ();
     fn poll_ready(self: Pin<&mut Self>, _cx: &mut Context<'_>) -> Poll<Result<(), ()>> {
-        let t = nested_from_poll();
-        if res_of(&t) == "pending" { Poll::Pending } else { Poll::Ready(Ok(())) }
+        sink_res(&nested_from_poll())
     }
     fn start_send(self: Pin<&mut Self>, _item: ()) -> Result<(), ()> {
-        let _ = nested_from_poll();
-        Ok(())
+        let t = nested_from_poll();
+        if res_of(&t) == "err" { Err(()) } else { Ok(()) }
     }
     fn poll_flush(self: Pin<&mut Self>, _cx: &mut Context<'_>) -> Poll<Result<(), ()>> {
-        let t = nested_from_poll();
-        if res_of(&t) == "pending" { Poll::Pending } else { Poll::Ready(Ok(())) }
+        sink_res(&nested_from_poll())
     }
     fn poll_close(self: Pin<&mut Self>, _cx: &mut Context<'_>) -> Poll<Result<(), ()>> {
-        let t = nested_from_poll();
-        if res_of(&t) == "pending" { Poll::Pending } else { Poll::Ready(Ok(())) }
+        sink_res(&nested_from_poll())
     }
 }
 
